@@ -449,6 +449,9 @@ pub struct Scanner<'input, T> {
     /// [ : foo ] # { null: "foo" }
     /// ```
     flow_mapping_started: bool,
+    /// For each open flow collection: the value of `flow_mapping_started` in the enclosing
+    /// context (restored when the collection closes) and whether the collection is a mapping.
+    flow_collections: Vec<(bool, bool)>,
     /// An array of states, representing whether flow sequences have implicit mappings.
     ///
     /// When a flow mapping is possible (when encountering the first `[` or a `,` in a sequence),
@@ -516,6 +519,7 @@ impl<'input, T: Input> Scanner<'input, T> {
             token_available: false,
             leading_whitespace: true,
             flow_mapping_started: false,
+            flow_collections: vec![],
             implicit_flow_mapping_states: vec![],
 
             buf_leading_break: String::new(),
@@ -1395,9 +1399,15 @@ impl<'input, T: Input> Scanner<'input, T> {
         let start_mark = self.mark;
         self.skip_non_blank();
 
-        if tok == TokenType::FlowMappingStart {
+        let is_mapping = tok == TokenType::FlowMappingStart;
+        self.flow_collections
+            .push((self.flow_mapping_started, is_mapping));
+        if is_mapping {
             self.flow_mapping_started = true;
         } else {
+            // We are directly inside a sequence: an implicit mapping may start here, whatever the
+            // enclosing collection is.
+            self.flow_mapping_started = false;
             self.implicit_flow_mapping_states
                 .push(ImplicitMappingState::Possible);
         }
@@ -1420,6 +1430,11 @@ impl<'input, T: Input> Scanner<'input, T> {
             // We are out exiting the flow sequence, nesting goes down 1 level.
             self.implicit_flow_mapping_states.pop();
         }
+        // Back in the enclosing collection (or out of any flow collection).
+        self.flow_mapping_started = self
+            .flow_collections
+            .pop()
+            .is_some_and(|(outer, _)| outer);
 
         let start_mark = self.mark;
         self.skip_non_blank();
@@ -1445,6 +1460,10 @@ impl<'input, T: Input> Scanner<'input, T> {
         self.allow_simple_key();
 
         self.end_implicit_mapping(self.mark);
+        // An entry of a sequence ends here, including a pair that was started with `?`.
+        if let Some((_, false)) = self.flow_collections.last() {
+            self.flow_mapping_started = false;
+        }
 
         let start_mark = self.mark;
         self.skip_non_blank();
